@@ -1066,6 +1066,9 @@ type axisCell struct {
 	absent   map[int64]bool
 	shapes   map[int64][]int64 // shapes of further inputs (input 0: rank/extents)
 	outShape []int64           // expected argument of tensor.WithShape(list) (nil: not checked)
+	objects  bool              // walk with lists of arbitrary values (slicer lists)
+	keep     *bool             // value of the operator's keepdims field (nil: left symbolic)
+	retShape []int64           // expected shape of the tensor that is returned (nil: outShape, if any)
 	refuse   bool              // the request is invalid: Reshape must not be reached with an acceptable shape
 	norm     []int64           // the normalised axes, in the order given
 	shape    []int64           // expected argument of Reshape (nil: not checked)
@@ -1084,6 +1087,7 @@ type axisRun struct {
 	c        *Ctx
 	named    *types.Named
 	fi       int
+	keepIdx  int // index of the boolean keepdims field (-1: none)
 	listFld  bool
 	getter   *ssa.Call
 	hits     []axisHit
@@ -1108,7 +1112,7 @@ func (ar *axisRun) add(kind string, pos token.Pos, fn *ssa.Function, cell *axisC
 
 func (ar *axisRun) run(entry *ssa.Function, args []pval, cell *axisCell, init bool) {
 	c := ar.c
-	p := &pinterp{c: c, budget: 600000}
+	p := &pinterp{c: c, budget: 600000, objects: cell.objects, trace: os.Getenv("R9FTRACE") != "" && strings.Contains(cell.desc, os.Getenv("R9FTRACE"))}
 	if !init {
 		shapeOf := func(k int64) ([]int64, bool) {
 			if k == 0 {
@@ -1138,6 +1142,9 @@ func (ar *axisRun) run(entry *ssa.Function, args []pval, cell *axisCell, init bo
 		p.inputList = func(k int64) ([]int64, bool) { l, ok := cell.lists[k]; return l, ok }
 		if ar.named != nil {
 			p.field = func(h *pheap, nn *types.Named, idx int) (pval, bool) {
+				if nn.Obj() == ar.named.Obj() && cell.keep != nil && idx == ar.keepIdx && ar.keepIdx >= 0 {
+					return pval{k: pBool, b: *cell.keep}, true
+				}
 				if nn.Obj() != ar.named.Obj() || idx != ar.fi {
 					return pval{}, false
 				}
@@ -1345,7 +1352,32 @@ func (ar *axisRun) run(entry *ssa.Function, args []pval, cell *axisCell, init bo
 			checkAxes(fn, call, got)
 		}
 	}
-	res, _ := p.run(entry, args, 0, nil)
+	res, hres := p.run(entry, args, 0, nil)
+	if p.trace {
+		fmt.Println("R9FTRACE result", res, hres != nil, cell.outShape, cell.refuse)
+	}
+	wantRet := cell.retShape
+	if wantRet == nil {
+		wantRet = cell.outShape
+	}
+	if !cell.refuse && !init && wantRet != nil && len(res) == 2 && (res[1].k == pNil || res[1].k == pUnknown) && res[0].k == pList && hres != nil {
+		// the shape of the tensor that is returned, however it was made
+		if l := hres.lists[res[0].i]; len(l) == 1 && l[0].k == pShaped {
+			if sh := hres.lists[l[0].j]; sh != nil {
+				got := make([]int64, len(sh))
+				okAll := true
+				for i, e := range sh {
+					if e.k != pInt {
+						okAll = false
+					}
+					got[i] = e.i
+				}
+				if okAll && fmtInts(got) != fmtInts(wantRet) {
+					ar.add("wrong-ret", entry.Pos(), entry, cell, fmtInts(got)+" instead of "+fmtInts(wantRet))
+				}
+			}
+		}
+	}
 	if cell.refuse && !init && len(res) == 2 {
 		switch {
 		case res[1].k == pNil:
@@ -1474,6 +1506,7 @@ func ruleAxisAccept(c *Ctx, prop string) {
 				continue
 			}
 			ar.named, ar.fi, ar.listFld = oi.named, fi, src.kind == "axes"
+			ar.keepIdx = fieldIndex(oi.named, "keepDims")
 		}
 		n++
 		args := []pval{{k: pRecv}, {k: pInputs}}
@@ -1499,7 +1532,7 @@ func ruleAxisAccept(c *Ctx, prop string) {
 					base[i] = int64(i) + 2
 				}
 				variants := [][]int64{base}
-				if src.op == "Softmax" || src.op == "LogSoftmax" {
+				{
 					// a unit extent at every position in turn: "one sample", "one class", "one row" are where
 					// shortcuts around the kernel's row handling hide
 					for j := int64(0); j < r && r > 1; j++ {
@@ -1529,6 +1562,7 @@ func ruleAxisAccept(c *Ctx, prop string) {
 								na := cell.norm[0]
 								c2.outShape = append(append(append([]int64{}, ext[:na]...), ish...), ext[na+1:]...)
 								c2.desc = cell.desc + fmt.Sprintf(" and an index tensor of shape %s", fmtInts(ish))
+								c2.objects = true
 								cells++
 								ar.run(apply, args, &c2, false)
 							}
@@ -1597,6 +1631,19 @@ func ruleAxisAccept(c *Ctx, prop string) {
 			}
 		case src.op == "Squeeze":
 			for r := int64(1); r <= listRank; r++ {
+				// an operand without any unit extent: every explicit axes request is invalid
+				{
+					ext := make([]int64, r)
+					for i := range ext {
+						ext[i] = int64(i) + 2
+					}
+					for _, bad := range [][]int64{{0}, {-1}, {r}, {0, 0}, {r - 1, -1}} {
+						c3 := &axisCell{rank: r, extents: ext, lists: map[int64][]int64{1: bad}, refuse: true, desc: fmt.Sprintf("axes = %s on an operand of shape %s (no axis of extent 1 at all)", fmtInts(bad), fmtInts(ext))}
+						cells++
+						invalid++
+						ar.run(apply, args, c3, false)
+					}
+				}
 				for _, sub := range subsetsOf(r) {
 					ext := make([]int64, r)
 					for i := range ext {
@@ -1698,31 +1745,80 @@ func ruleAxisAccept(c *Ctx, prop string) {
 			}
 		case src.op == "ReduceMax" || src.op == "ReduceMin":
 			for r := int64(1); r <= listRank; r++ {
-				ext := make([]int64, r)
-				for i := range ext {
-					ext[i] = int64(i) + 2
+				base := make([]int64, r)
+				for i := range base {
+					base[i] = int64(i) + 2
 				}
-				// no axes: every axis is reduced, with keepdims the kept shape is all ones
-				{
-					ones := make([]int64, r)
-					for i := range ones {
-						ones[i] = 1
-					}
-					cell := &axisCell{rank: r, extents: ext, field: []int64{}, norm: []int64{}, shape: ones, desc: fmt.Sprintf("no axes on an operand of shape %s", fmtInts(ext))}
-					cells++
-					ar.run(apply, args, cell, false)
+				// also with a unit extent at every position in turn ("a batch of one"): shortcuts for axes that
+				// hold one element are where requested axes get lost
+				variants := [][]int64{base}
+				for j := int64(0); j < r; j++ {
+					v := append([]int64{}, base...)
+					v[j] = 1
+					variants = append(variants, v)
 				}
-				for _, sub := range subsetsOf(r) {
-					for _, sp := range axisSpellings(sub, r) {
-						cell := &axisCell{rank: r, extents: ext, field: sp, norm: normAxes(sp, r), desc: fmt.Sprintf("axes = %s on an operand of shape %s", fmtInts(sp), fmtInts(ext))}
-						// with keepdims the result is reshaped to the input's shape with ones at the reduced axes
-						kept := append([]int64{}, ext...)
-						for _, a := range cell.norm {
-							kept[a] = 1
+				for _, ext := range variants {
+					// no axes: every axis is reduced, with keepdims the kept shape is all ones
+					{
+						ones := make([]int64, r)
+						for i := range ones {
+							ones[i] = 1
 						}
-						cell.shape = kept
+						cell := &axisCell{rank: r, extents: ext, field: []int64{}, norm: []int64{}, shape: ones, desc: fmt.Sprintf("no axes on an operand of shape %s", fmtInts(ext))}
 						cells++
 						ar.run(apply, args, cell, false)
+						if ar.keepIdx >= 0 {
+							// keepdims decided: the shape of what is returned
+							for _, kd := range []bool{false, true} {
+								kd := kd
+								c2 := *cell
+								c2.keep = &kd
+								c2.retShape = []int64{}
+								if kd {
+									c2.retShape = ones
+								}
+								c2.desc = fmt.Sprintf("%s, keepdims = %v", cell.desc, kd)
+								cells++
+								ar.run(apply, args, &c2, false)
+							}
+						}
+					}
+					for _, sub := range subsetsOf(r) {
+						for _, sp := range axisSpellings(sub, r) {
+							cell := &axisCell{rank: r, extents: ext, field: sp, norm: normAxes(sp, r), desc: fmt.Sprintf("axes = %s on an operand of shape %s", fmtInts(sp), fmtInts(ext))}
+							// with keepdims the result is reshaped to the input's shape with ones at the reduced axes
+							kept := append([]int64{}, ext...)
+							for _, a := range cell.norm {
+								kept[a] = 1
+							}
+							cell.shape = kept
+							cells++
+							ar.run(apply, args, cell, false)
+							if ar.keepIdx >= 0 && len(sp) <= 2 {
+								gone := map[int64]bool{}
+								for _, a := range cell.norm {
+									gone[a] = true
+								}
+								reduced := []int64{}
+								for i, e := range ext {
+									if !gone[int64(i)] {
+										reduced = append(reduced, e)
+									}
+								}
+								for _, kd := range []bool{false, true} {
+									kd := kd
+									c2 := *cell
+									c2.keep = &kd
+									c2.retShape = reduced
+									if kd {
+										c2.retShape = kept
+									}
+									c2.desc = fmt.Sprintf("%s, keepdims = %v", cell.desc, kd)
+									cells++
+									ar.run(apply, args, &c2, false)
+								}
+							}
+						}
 					}
 				}
 			}
@@ -1790,8 +1886,14 @@ func ruleAxisAccept(c *Ctx, prop string) {
 				c.violate("R9", key, c.pos(pos), "an invalid request is answered with a tensor instead of an error: with "+h.cell.desc+" the operator returns a result and a nil error")
 			case "softmax-kernel":
 				c.violate("R9", key, c.pos(pos), fmt.Sprintf("with %s gorgonia's softmax is called on a tensor of %s: that is its last-axis kernel with more than one row, which takes every row's maximum from the first element of the whole tensor (NaN / overflow for large values, other rows influence the result)", h.cell.desc, h.got))
+			case "wrong-ret":
+				c.violate("R9", key, c.pos(pos), fmt.Sprintf("with %s the result has shape %s", h.cell.desc, h.got))
 			case "wrong-shape":
-				c.violate("R9", key, c.pos(pos), fmt.Sprintf("with %s the shape handed to Reshape is %s, ONNX prescribes %s", h.cell.desc, h.got, fmtInts(h.cell.shape)))
+				if h.cell.outShape != nil {
+					c.violate("R9", key, c.pos(pos), fmt.Sprintf("with %s the result has shape %s, ONNX prescribes %s", h.cell.desc, h.got, fmtInts(h.cell.outShape)))
+				} else {
+					c.violate("R9", key, c.pos(pos), fmt.Sprintf("with %s the shape handed to Reshape is %s, ONNX prescribes %s", h.cell.desc, h.got, fmtInts(h.cell.shape)))
+				}
 			}
 		}
 		c.counts["R9f.cells"] += cells
